@@ -341,6 +341,32 @@ package cache
 //@   ensures [C07.load.frame] mapKept(c) && entriesKept()
 //@   modifies H|TraitEntry|.C @stat @log G|clock G|clk G|nclk
 
+//@ func (*shardedMap).Store
+//@   props C07 C09
+//@   requires repOK(c)
+//@   requires c.t.Config.ExpirationJitter <= 1.0 && abs(c.t.Config.TimeToLive) <= 1577880000000000000
+//@   requires c.t.expirationsSet >= 0 && c.t.expirationsSet < 4611686018427387904
+//@   let kb := old(bytes(key))
+//@   let h := hash(kb)
+//@   ensures [C07.store.stored] hasH(c, h) && ent(c, h) != nil && bytes(ent(c, h).K) == kb && ent(c, h).V == val
+//@   ensures [C07.store.others] forall h2 uint64 :: h2 != h ==> hasH(c, h2) == old(hasH(c, h2)) && ent(c, h2) == old(ent(c, h2))
+//@   ensures [C09.store.copy] fresh(ent(c, h)) && fresh(base(ent(c, h).K))
+//@   ensures [C07.store.repok] repOK(c)
+//@   modifies H|TraitEntry|* E|byte|* M|map[uint64]*TraitEntry|* H|Trait|.expirationsSet @stat @log G|clock G|clk G|nclk G|rand
+
+// Len is the number of entries: the sum of the shard sizes. The sum is stated through its prefix sums, which the
+// loop records in the ghost array lensum (relative to lensum[0]): lensum[i+1] == lensum[i] + len(shard i).
+//@ def shardLen(c, i) := len(c.hashedBuckets[i].data)
+//@ func (*shardedMap).Len
+//@   props C07 C08 C16
+//@   requires repOK(c)
+//@   ensures [C07.len.sum] result == ghost(lensum, 128) - ghost(lensum, 0)
+//@       && (forall j int :: 0 <= j && j < 128 ==> ghost(lensum, j + 1) == ghost(lensum, j) + shardLen(c, j))
+//@   ensures [C07.len.frame] mapKept(c) && entriesKept()
+//@   loop 1 (range c.hashedBuckets) invariant [C07.len.inv] -1 <= rangeindex && rangeindex <= 127 && cnt >= 0 && cnt <= (rangeindex + 1) * 1099511627776 && cnt == ghost(lensum, rangeindex + 1) - ghost(lensum, 0)
+//@       && (forall j int :: 0 <= j && j <= rangeindex ==> ghost(lensum, j + 1) == ghost(lensum, j) + shardLen(c, j))
+//@   loop 1 ghost lensum[rangeindex + 1] := cnt + ghost(lensum, 0)
+
 // deleteExpired(before): removes exactly the entries that expired before the boundary; never-expiring entries
 // (E == 0) and everything else survive unchanged (C11). The clause is taken from the property statement.
 // The same obligations serve C07: the reference map with per-entry expiry keeps every entry that is not expired,
@@ -397,6 +423,10 @@ package cache
 //@ func (*shardedMapOf[V]).deleteExpired
 //@   like (*shardedMap).deleteExpired subst TraitEntry=TraitEntryOf[V]
 //@   replay janitor before=before backend:=shardedof
+//@ func (*shardedMapOf[V]).Store
+//@   like (*shardedMap).Store subst TraitEntry=TraitEntryOf[V]
+//@ func (*shardedMapOf[V]).Len
+//@   like (*shardedMap).Len subst TraitEntry=TraitEntryOf[V]
 
 // ---------------------------------------------------------------------------------------------------
 // sharded_map.go: batch operations (C07), sequential contracts
